@@ -450,13 +450,18 @@ func drawOptBlobLen(t *rapid.T, label string) int {
 	return drawBlobLen(t, label)
 }
 
-func TestPropChain(t *testing.T) {
+func TestPropChain(t *testing.T) { chainProp.Rapid(t, chainGen(t)) }
+
+// TestConcChain: batches of cases evaluated at the same time on separate goroutines (vh.Prop.Concurrent).
+func TestConcChain(t *testing.T) { chainProp.Concurrent(t, chainGen(t), 8, 3) }
+
+func chainGen(t *testing.T) func(*rapid.T) ChainCase {
 	ps := poolSize()
 	if len(certs()) != ps {
 		t.Fatalf("pool has %d certificates, layout says %d", len(certs()), ps)
 	}
 	pats := []string{"valid", "valid", "valid", "valid", "valid", "valid", "leaf-without-ocsp", "ocsp-on-nonleaf", "both", "empty", "free"}
-	chainProp.Rapid(t, func(t *rapid.T) ChainCase {
+	return func(t *rapid.T) ChainCase {
 		c := ChainCase{Tag: rapid.Uint64Range(0, 1<<40).Draw(t, "tag"), Elems: []Elem{}}
 		pat := rapid.SampledFrom(pats).Draw(t, "pattern")
 		if pat == "empty" {
@@ -499,7 +504,7 @@ func TestPropChain(t *testing.T) {
 			c.FailFirst = 1 + rapid.SampledFrom([]int{0, 1, 9, 10, 30, 500, 1000, 3000}).Draw(t, "failat")
 		}
 		return c
-	})
+	}
 }
 
 // TestExhaustiveChainPresence enumerates every presence pattern (OCSP absent / empty / 1 byte / 300 bytes,
@@ -831,13 +836,18 @@ func drawW(t *rapid.T, label string) int {
 	return rapid.SampledFrom([]int{-1, -1, -1, -1, 1, 2, 4, 8}).Draw(t, label)
 }
 
-func TestPropCrafted(t *testing.T) {
+func TestPropCrafted(t *testing.T) { craftProp.Rapid(t, craftGen(t)) }
+
+// TestConcCrafted: batches of cases evaluated at the same time on separate goroutines (vh.Prop.Concurrent).
+func TestConcCrafted(t *testing.T) { craftProp.Concurrent(t, craftGen(t), 8, 3) }
+
+func craftGen(t *testing.T) func(*rapid.T) CraftCase {
 	ps := poolSize()
 	certs()
 	smallLens := []int{0, 1, 23, 24, 255, 256, 300}
 	perts := []string{"none", "widths", "widths", "shuffle", "shuffle", "extra", "extra", "drop-cert", "wrong-magic", "short-array", "bad-der", "bad-der",
 		"dup-cert", "drop-leaf-ocsp", "ocsp-on-nonleaf", "trailing", "cut", "odd-extra", "dup-blob"}
-	craftProp.Rapid(t, func(t *rapid.T) CraftCase {
+	return func(t *rapid.T) CraftCase {
 		c := CraftCase{Magic: "ok", MagicW: -1, ArrW: -1, Tag: rapid.Uint64Range(0, 1<<40).Draw(t, "tag"), Elems: []CElem{}}
 		n := rapid.IntRange(1, 3).Draw(t, "n")
 		drawLen := func(label string) int {
@@ -943,7 +953,7 @@ func TestPropCrafted(t *testing.T) {
 			}
 		}
 		return c
-	})
+	}
 }
 
 // ----------------------------------------------------------------------------- (3) sct-list
@@ -1195,64 +1205,67 @@ func TestExhaustiveSCT(t *testing.T) {
 		"(c) k equal elements of size s in {0,1,2,3,14,100} for k within -1..+2 of floor(65535/(s+2)), alone and with one padding element in front/behind making the total exactly 65535 and 65536: %d lists, filler content", sctSizes, lead, n))
 }
 
-func TestPropSCT(t *testing.T) {
-	sctProp.Rapid(t, func(t *rapid.T) SCTCase {
-		c := SCTCase{Tag: rapid.Uint64Range(0, 1<<40).Draw(t, "tag"), Runs: []Run{}}
-		drawSize := func(label string) int {
-			switch rapid.IntRange(0, 4).Draw(t, label+"-mode") {
-			case 0, 1:
-				return rapid.SampledFrom(sctSizes).Draw(t, label)
-			case 2:
-				return rapid.IntRange(0, 200).Draw(t, label+"-small")
-			case 3:
-				return rapid.IntRange(0, 66000).Draw(t, label+"-any")
-			}
-			return rapid.IntRange(65529, 65538).Draw(t, label+"-edge")
+func TestPropSCT(t *testing.T) { sctProp.Rapid(t, genPropSCT) }
+
+// TestConcSCT: batches of cases evaluated at the same time on separate goroutines (vh.Prop.Concurrent).
+func TestConcSCT(t *testing.T) { sctProp.Concurrent(t, genPropSCT, 8, 3) }
+
+func genPropSCT(t *rapid.T) SCTCase {
+	c := SCTCase{Tag: rapid.Uint64Range(0, 1<<40).Draw(t, "tag"), Runs: []Run{}}
+	drawSize := func(label string) int {
+		switch rapid.IntRange(0, 4).Draw(t, label+"-mode") {
+		case 0, 1:
+			return rapid.SampledFrom(sctSizes).Draw(t, label)
+		case 2:
+			return rapid.IntRange(0, 200).Draw(t, label+"-small")
+		case 3:
+			return rapid.IntRange(0, 66000).Draw(t, label+"-any")
 		}
-		switch rapid.IntRange(0, 3).Draw(t, "shape") {
-		case 0: // free list
-			n := rapid.IntRange(0, 6).Draw(t, "n")
-			for i := 0; i < n; i++ {
-				c.Runs = append(c.Runs, Run{Size: drawSize("size"), Count: 1})
-			}
-		case 1, 2: // aimed at a total near the limit
-			T := 65535 + rapid.IntRange(-6, 6).Draw(t, "delta")
-			n := rapid.IntRange(1, 6).Draw(t, "n")
-			left := T
-			for i := 0; i < n-1; i++ {
-				max := left - 2*(n-i) // keep room for the remaining length prefixes
-				if max < 0 {
-					break
-				}
-				s := rapid.IntRange(0, max).Draw(t, "part")
-				if rapid.Bool().Draw(t, "small-part") {
-					s = rapid.IntRange(0, min(max, 300)).Draw(t, "part-small")
-				}
-				c.Runs = append(c.Runs, Run{Size: s, Count: 1})
-				left -= s + 2
-			}
-			if left-2 >= 0 {
-				c.Runs = append(c.Runs, Run{Size: left - 2, Count: 1})
-			}
-			if rapid.Bool().Draw(t, "shuffle") {
-				c.Runs = rapid.Permutation(c.Runs).Draw(t, "perm")
-			}
-		case 3: // many small elements
-			s := rapid.IntRange(0, 30).Draw(t, "s")
-			k := 65535/(s+2) + rapid.IntRange(-3, 3).Draw(t, "dk")
-			c.Runs = append(c.Runs, Run{Size: s, Count: k})
-			if rapid.Bool().Draw(t, "tail") {
-				c.Runs = append(c.Runs, Run{Size: rapid.IntRange(0, 40).Draw(t, "tail-size"), Count: 1})
-			}
+		return rapid.IntRange(65529, 65538).Draw(t, label+"-edge")
+	}
+	switch rapid.IntRange(0, 3).Draw(t, "shape") {
+	case 0: // free list
+		n := rapid.IntRange(0, 6).Draw(t, "n")
+		for i := 0; i < n; i++ {
+			c.Runs = append(c.Runs, Run{Size: drawSize("size"), Count: 1})
 		}
-		if len(c.Runs) > 0 && rapid.IntRange(0, 2).Draw(t, "selfsimilar") == 0 {
-			i := rapid.IntRange(0, len(c.Runs)-1).Draw(t, "selfsimilarat")
-			if c.Runs[i].Size >= 5 && c.Runs[i].Size <= 65535 {
-				c.Runs[i].SelfSimilar = true
+	case 1, 2: // aimed at a total near the limit
+		T := 65535 + rapid.IntRange(-6, 6).Draw(t, "delta")
+		n := rapid.IntRange(1, 6).Draw(t, "n")
+		left := T
+		for i := 0; i < n-1; i++ {
+			max := left - 2*(n-i) // keep room for the remaining length prefixes
+			if max < 0 {
+				break
 			}
+			s := rapid.IntRange(0, max).Draw(t, "part")
+			if rapid.Bool().Draw(t, "small-part") {
+				s = rapid.IntRange(0, min(max, 300)).Draw(t, "part-small")
+			}
+			c.Runs = append(c.Runs, Run{Size: s, Count: 1})
+			left -= s + 2
 		}
-		return c
-	})
+		if left-2 >= 0 {
+			c.Runs = append(c.Runs, Run{Size: left - 2, Count: 1})
+		}
+		if rapid.Bool().Draw(t, "shuffle") {
+			c.Runs = rapid.Permutation(c.Runs).Draw(t, "perm")
+		}
+	case 3: // many small elements
+		s := rapid.IntRange(0, 30).Draw(t, "s")
+		k := 65535/(s+2) + rapid.IntRange(-3, 3).Draw(t, "dk")
+		c.Runs = append(c.Runs, Run{Size: s, Count: k})
+		if rapid.Bool().Draw(t, "tail") {
+			c.Runs = append(c.Runs, Run{Size: rapid.IntRange(0, 40).Draw(t, "tail-size"), Count: 1})
+		}
+	}
+	if len(c.Runs) > 0 && rapid.IntRange(0, 2).Draw(t, "selfsimilar") == 0 {
+		i := rapid.IntRange(0, len(c.Runs)-1).Draw(t, "selfsimilarat")
+		if c.Runs[i].Size >= 5 && c.Runs[i].Size <= 65535 {
+			c.Runs[i].SelfSimilar = true
+		}
+	}
+	return c
 }
 
 // sourceMode picks how the bytes are handed to ReadCertChain as a pure function of the bytes:
